@@ -131,15 +131,16 @@ PROPS = {
         "assumptions": ["covariances are symmetric positive definite (det > 0)"],
     },
     "C10": {
-        "obligations": [RP + n for n in ["progBody_fst", "progress_rows_eq_run", "worker_messages", "workers_send_final", "sweep_spec", "inv_init", "inv_iter",
+        "module": "MiniMcmcVerif.Props.C10Tight",
+        "obligations": [RP + n for n in ["full_init", "full_iter", "reporter_terminates_tight", "reporter_terminates_from_init", "progBody_fst", "progress_rows_eq_run", "worker_messages", "workers_send_final", "sweep_spec", "inv_init", "inv_iter",
                                          "retired_init", "retired_iter", "reporter_exit_sound", "iter_all_final", "reporter_terminates"]],
         "timeout": 3000,
         "level_text": "Theorems: the progress worker returns exactly the rows and end state of run_chain for every clock behaviour and whatever happens to its messages; its last message carries n = total and total is sent once; "
                       "the reporter's bookkeeping satisfies n_finished + |active| + waiting = N after every iteration for every arrival history (a chain is counted once), exit implies every chain's final message was seen, and once "
-                      "all final messages have arrived the loop breaks within N - n_finished + 1 iterations, for every number of chains (also > 5 bars) and every completion order. Tied to core.rs/nuts.rs by replaying the model on "
+                      "all final messages have arrived the loop breaks within ceil((N - n_finished)/5) iterations (ceil(N/5) from the start), for every number of chains (also > 5 bars) and every completion order. Tied to core.rs/nuts.rs by replaying the model on "
                       "the per-iteration trace of the real reporter threads (hook) under scripted completion orders, and by comparing run_progress with run for all samplers/precisions under a watchdog.",
         "level_note": "Liveness is proved for the model under the fairness premise 'every worker's final message eventually arrives' (mpsc is FIFO and lossless while the receiver lives: trusted); real thread scheduling, "
-                      "indicatif and the OS are observed (watchdog), not modelled. The bound proved is N - n_finished + 1 iterations (the tighter ceil(N/5)+1 is observed, not proved).",
+                      "indicatif and the OS are observed (watchdog), not modelled.",
         "rule": "reporter traces for chain counts {1,2,5,6,7,11,16,33,48} (thorough: 1..48) x completion profiles (instant / index order / reverse order / random) with (c>=4, d) random, plus the NUTS copy; run_progress vs run "
                 "for MH (library and user proposal), Gibbs, HMC, NUTS; HMC/NUTS x {f32 on NdArray<f32>, f64 on NdArray<f64>} with diagnostics recomputed from the returned draws; run_chain_progress with the receiver "
                 "dropped before / during / after; distinct by (chains, c, d, profile)",
